@@ -19,6 +19,8 @@ A_VCPREFIX = "switch prefix of proof.RootFromConsistencyProof (equal sizes, size
 GETCP = "(*%s/internal/witness.Witness).GetCheckpoint" % W
 
 BA = "%s/internal/feeder/bastion" % W
+FD = "%s/internal/feeder" % W
+RS = "%s/internal/distribute/rest" % W
 OW = "%s/omniwitness" % W
 IM = "%s/internal/persistence/inmemory" % W
 SQ = "%s/internal/persistence/sql" % W
@@ -54,10 +56,17 @@ PROPS = {
             "assumptions": [A_NOTE, A_STORE, "net/http ResponseWriter, rate.Limiter, strings.SplitN contracts (contracts/55_http.spec)",
                             "the interface contract of feeder.Witness.Update is proved for omniwitness.witnessAdapter from the proved contract of (*Witness).Update under the adapter's configuration preconditions (store, published verifier, origins); omniwitness.Main establishing that configuration is read, not verified",
                             "TLS 1.3 / HTTP-2 reverse connection, http.MaxBytesHandler and the rate limiter's arithmetic are not covered"]},
+    "C13": {"runs": [{"funcs": [FD + ".submitToWitness$1", FD + ".submitToWitness", FD + ".FeedOnce", OW + ".witnessAdapter).Update", OW + ".witnessAdapter).GetLatestCheckpoint"], "tags": ["C13"]}],
+            "assumptions": [A_NOTE, "contract of github.com/cenkalti/backoff/v4.Retry: it runs the operation some number of times and returns nil iff the last run returned nil (modelled as: earlier attempts havoc what the operation may modify, then one final attempt by its contract); that the retry loop ends is not shown",
+                            "field contracts of FeedOpts.FetchCheckpoint / FetchProof (what each feeder stores there is not verified here)"],
+            "not_decided": ["'retries and succeeds once failures clear' and 'stops when its context ends' (liveness of the retry loop in a dependency)"]},
+    "C15": {"runs": [{"funcs": [RS + ".Distributor).distributeForLog", RS + ".Distributor).DistributeOnce"], "tags": ["C15"]}],
+            "assumptions": [A_NOTE, "net/http client, net/url, bytes.Reader contracts (contracts/70_distribute.spec): a request carries the method, URL string and body it was built with; redirects are visible through resp.Request.Method",
+                            "note.Open with verifiers {log, witness}: the number of verified signatures is a function of (bytes, log verifier, witness verifier)"]},
     "C20": {"funcs": [UPDATE, INITM], "tags": ["C20"], "assumptions": [A_NOTE, A_STORE, A_VCPREFIX, "monitoring.Counter.Inc adds one to the counter for its label (interface contract)"]},
 }
 
-HOOK_COMMITS = ["7296b73", "af7d29a", "308f21e", "b6239f6", "c655fca", "35e6d9a", "634df6a", "1ee2140"]
+HOOK_COMMITS = ["7296b73", "af7d29a", "308f21e", "b6239f6", "c655fca", "35e6d9a", "634df6a", "1ee2140", "3f24477"]
 
 NOT_APPLICABLE = {
     "C14": "whole-system liveness and timing over goroutines, tickers, HTTP servers and stub log servers ('within a bounded number of poll intervals', across restarts): no per-function contract expresses 'eventually catches up', and omniwitness.Main (go/select/errgroup) is outside the generator's subset. Its safety ingredients are decided by C01, C12, C13, C16.",
@@ -93,6 +102,10 @@ MANIFEST_TEXT = {
             "note": "the verdict of the Merkle hash chaining is the uninterpreted function vc(...); agreement with an independent RFC 6962 verifier is not decided here. The defect found by this check (F3) was repaired by commit eed264f."},
     "C10": {"level": "Postconditions of (*addHandler).handleUpdate against the PROVED contract of the real witness (carried through the interface contract of feeder.Witness.Update, which omniwitness.witnessAdapter.Update is proved to refine from (*Witness).Update's contract -- the composition the test suite never exercises): the request reaches the witness exactly once and unchanged; accepted => 200 and the body is '— name base64\\n' of the first signature of the returned note verified under the witness verifier, over the submitted text; old size too large => 400; stale => 409 with Content-Type text/x.tlog.size and the decimal size of the stored checkpoint; root mismatch => 409; bad proof => 422; bad signature => 403.",
             "note": "ServeHTTP (rate limiting 429, malformed body 400, unknown origin 404, exactly one WriteHeader) is covered by C19/C11 obligations where built; TLS/HTTP-2 leg not covered. F1 (over 100 signature lines) is carved out as a known finding."},
+    "C13": {"level": "Trace postconditions (ghost call records of the witness interface and of FetchProof) of one attempt of the retry loop (the closure submitToWitness$1, verified on its own with its captured variables as pointer parameters), of submitToWitness and of FeedOnce: exactly one GetLatestCheckpoint and at most one Update per attempt, for this log's ID; an Update only after the witness answered with a checkpoint or 'none'; old size == size of exactly that answer (0 if none), which verified under the log's key and origin; proof empty for a refresh, otherwise exactly FetchProof(witness checkpoint -> submitted checkpoint); no Update and a permanent error when the witness is ahead; every failing step => non-permanent error and no later Update; success returns the bytes the witness returned; FeedOnce sends nothing unless the fetched checkpoint verifies and submits the fetched bytes unchanged. The adapter between feeder and witness is proved to forward faithfully.",
+            "note": "safety part only; liveness of backoff.Retry is not decided."},
+    "C15": {"level": "Trace postconditions of distributeForLog (all 10 return paths): the witness is asked once for l.ID; at most one request; if one is sent it is a PUT of exactly the bytes the witness returned, to baseURL + /distributor/v0/logs/<l.ID>/byWitness/<PathEscape(witness key name)>/checkpoint, and only after ParseCheckpoint(bytes, l.Origin, l.Verifier, witness verifier) succeeded with exactly two verified signatures; any failing step (witness error, parse, URL, request, transport, method rewritten by a redirect, body read, status != 200) => non-nil error; success counter moves iff success. DistributeOnce: loop invariant -- every configured log is attempted, numErrs counts the failures, result non-nil iff some log failed.",
+            "note": "net/http and net/url contracts assumed; 'two verified signatures means the log's and the witness's' is note.Open's assumed contract."},
     "C20": {"level": "Ghost-counter postcondition of Update: per call, each of the four counters moves for label logID exactly as the spec-level verdict prescribes and no other (counter, label) moves (frame, quantified). Histories are sums of per-call deltas.",
             "note": "Counter.Inc adds one for its label (interface contract); the four counters are distinct non-nil objects (precondition, established by initMetrics with a factory returning fresh counters: not yet proved)."},
 }
